@@ -174,24 +174,51 @@ Ltac is_pos_const p :=
 Ltac is_N_const n := lazymatch n with N0 => idtac | Npos ?p => is_pos_const p end.
 Ltac is_nat_const n := lazymatch n with O => idtac | S ?m => is_nat_const m end.
 
-(* evaluate the closed arithmetic sub-terms *)
+(* evaluate the closed arithmetic sub-terms (patterns on the literal constructors, so that symbolic terms such as
+   `k + 1` are not even tried) *)
+Ltac ground_bin op a b := let v := eval vm_compute in (op a b) in change (op a b) with v.
 Ltac ground_step :=
   match goal with
-  | |- context [N.to_nat ?a] => is_N_const a; let v := eval vm_compute in (N.to_nat a) in change (N.to_nat a) with v
-  | |- context [N.of_nat ?a] => is_nat_const a; let v := eval vm_compute in (N.of_nat a) in change (N.of_nat a) with v
-  | |- context [?a =? ?b] => is_N_const a; is_N_const b; let v := eval vm_compute in (a =? b) in change (a =? b) with v
-  | |- context [?a <? ?b] => is_N_const a; is_N_const b; let v := eval vm_compute in (a <? b) in change (a <? b) with v
-  | |- context [?a <=? ?b] => is_N_const a; is_N_const b; let v := eval vm_compute in (a <=? b) in change (a <=? b) with v
-  | |- context [?a + ?b] => is_N_const a; is_N_const b; let v := eval vm_compute in (a + b) in change (a + b) with v
-  | |- context [?a - ?b] => is_N_const a; is_N_const b; let v := eval vm_compute in (a - b) in change (a - b) with v
-  | |- context [?a / ?b] => is_N_const a; is_N_const b; let v := eval vm_compute in (a / b) in change (a / b) with v
+  | |- context [N.eqb N0 N0] => ground_bin N.eqb N0 N0
+  | |- context [N.eqb N0 (Npos ?q)] => is_pos_const q; ground_bin N.eqb N0 (Npos q)
+  | |- context [N.eqb (Npos ?p) N0] => is_pos_const p; ground_bin N.eqb (Npos p) N0
+  | |- context [N.eqb (Npos ?p) (Npos ?q)] => is_pos_const p; is_pos_const q; ground_bin N.eqb (Npos p) (Npos q)
+  | |- context [N.ltb N0 N0] => ground_bin N.ltb N0 N0
+  | |- context [N.ltb N0 (Npos ?q)] => is_pos_const q; ground_bin N.ltb N0 (Npos q)
+  | |- context [N.ltb (Npos ?p) N0] => is_pos_const p; ground_bin N.ltb (Npos p) N0
+  | |- context [N.ltb (Npos ?p) (Npos ?q)] => is_pos_const p; is_pos_const q; ground_bin N.ltb (Npos p) (Npos q)
+  | |- context [N.leb N0 N0] => ground_bin N.leb N0 N0
+  | |- context [N.leb N0 (Npos ?q)] => is_pos_const q; ground_bin N.leb N0 (Npos q)
+  | |- context [N.leb (Npos ?p) N0] => is_pos_const p; ground_bin N.leb (Npos p) N0
+  | |- context [N.leb (Npos ?p) (Npos ?q)] => is_pos_const p; is_pos_const q; ground_bin N.leb (Npos p) (Npos q)
+  | |- context [N.add N0 N0] => ground_bin N.add N0 N0
+  | |- context [N.add N0 (Npos ?q)] => is_pos_const q; ground_bin N.add N0 (Npos q)
+  | |- context [N.add (Npos ?p) (Npos ?q)] => is_pos_const p; is_pos_const q; ground_bin N.add (Npos p) (Npos q)
+  | |- context [N.sub (Npos ?p) (Npos ?q)] => is_pos_const p; is_pos_const q; ground_bin N.sub (Npos p) (Npos q)
+  | |- context [N.sub (Npos ?p) N0] => is_pos_const p; ground_bin N.sub (Npos p) N0
+  | |- context [N.div (Npos ?p) (Npos ?q)] => is_pos_const p; is_pos_const q; ground_bin N.div (Npos p) (Npos q)
   end.
+
+Lemma skipn_app_exact : forall A (l x : list A) n, n = length l -> skipn n (l ++ x) = x.
+Proof. intros A l x n ->. rewrite skipn_app, skipn_all, Nat.sub_diag. reflexivity. Qed.
 
 (* decide the comparisons of symbolic numbers by lia *)
 Ltac sym_step :=
   match goal with
-  | |- context [firstn (N.to_nat ?a) ?l] =>
-      replace (firstn (N.to_nat a) l) with l by (symmetry; apply firstn_all2; lia)
+  (* `N.to_nat a` of a symbolic a has been unfolded by model_cbv into `match a with 0 => 0%nat | N.pos p => _ end` *)
+  | |- context [firstn ?n ?l] =>
+      lazymatch n with
+      | match ?a with N0 => _ | Npos _ => _ end =>
+          replace (firstn n l) with l by (symmetry; apply firstn_all2; change n with (N.to_nat a); lia)
+      end
+  | |- context [skipn ?n (?l ++ ?x)] =>
+      lazymatch n with
+      | match ?a with N0 => _ | Npos _ => _ end =>
+          first [ replace (skipn n (l ++ x)) with x
+                    by (symmetry; apply skipn_app_exact; change n with (N.to_nat a); lia)
+                | replace (skipn n (l ++ x)) with (@nil entry)
+                    by (symmetry; apply skipn_all2; rewrite app_length; cbn [length]; change n with (N.to_nat a); lia) ]
+      end
   | |- context [?a =? ?b] =>
       first [ replace (a =? b) with true by (symmetry; apply N.eqb_eq; lia)
             | replace (a =? b) with false by (symmetry; apply N.eqb_neq; lia) ]
@@ -209,14 +236,15 @@ Ltac model_cbv :=
      negb andb orb existsb memN lenN
      handle_request handle_response append_request heartbeat_request pre_vote_request vote_request
      append_logs validate_term validate_log validate_log_append validate_log_for_vote validate_term_for_vote
-     validate_vote_state become_follower update_node append_storage commit_storage st_append st_commit
+     validate_vote_state become_follower update_node append_storage commit_storage st_append st_commit st_logs
      commit reconcile heartbeat_no_timer pre_vote_received vote_received election pre_election clear_votes clear_from
      vote_counts votes count_peers process append is_election is_leader is_candidate is_append_or_hb
      ok log_mismatch mk_req others indices local node_at nth upd_peer upd_local set_peers set_state set_term set_et
      set_storage p_set_log p_set_commit p_set_all p_set_voted
      n_index n_size n_state n_term n_peers n_logs n_commit n_first n_et n_hb n_tt
      p_li p_lt p_lc p_voted q_from q_to q_term q_li q_lt q_lc q_kind s_to s_result e_index e_term e_data
-     c_nodes c_net c_hist fix_vote_term fix_vote_match].
+     c_nodes c_net c_hist fix_vote_term fix_vote_match
+     N.to_nat Pos.to_nat Pos.iter_op Nat.add N.of_nat Pos.of_succ_nat Pos.succ].
 
 Ltac sym_eval := model_cbv; repeat (first [ground_step | sym_step]; model_cbv).
 
